@@ -1062,7 +1062,8 @@ fn resample_by_spacing(curve: &Curve2, spacing: f64) -> Result<Curve2> {
 fn resample_by_count(curve: &Curve2, count: usize) -> Result<Curve2> {
     let mut positions = Vec::new();
     for i in 0..count {
-        positions.push(i as f64 / (count - 1) as f64);
+        let f = i as f64 / (count - 1) as f64;
+        positions.push(f * curve.length());
     }
     resample_at_positions(curve, &positions)
 }
